@@ -360,6 +360,17 @@ class Model:
         if st.hang:
             bad('hang', st.hang)
         obs = observed_control(s)
+        if st.tagged is None and fsm.orphan and fsm.mailbox in fsm.existing \
+                and b'[SERVERBUG]' in st.raw:
+            # the selected mailbox was deleted by another session and a new
+            # one created under its name: the stale selection is applied to
+            # it by name (one root cause, recorded once)
+            out.append(Violation(
+                'serverbug-stale-selection', 'selection-of-recreated-mailbox',
+                f'{ev["name"]} on a selection whose mailbox was deleted and '
+                f're-created: {st.raw[-80:]!r}'))
+            fsm.advance(ev, None, obs)
+            return out
         if st.tagged is None:
             bad('no-tagged-response',
                 f'no tagged completion for {ev["line"]!r}: {st.raw[-120:]!r}')
